@@ -265,7 +265,13 @@ def run_coq_shards(name, header, items, checker, item_type=None, shard=300, jobs
 
     def one(kf):
         k, fn = kf
-        rc, out = sh(f"ulimit -s unlimited; timeout {timeout} coqc -R {COQ} AV {fn}", timeout=timeout + 20)
+        rc, out = sh(f"ulimit -s unlimited; timeout {timeout} coqc -noglob -R {COQ} AV {fn}", timeout=timeout + 20)
+        base = fn[:-2]
+        for ext in (".vo", ".vos", ".vok", ".glob"):        # only the printed answer is used: the disk is small
+            try:
+                os.unlink(base + ext)
+            except OSError:
+                pass
         if rc != 0:
             return k, None, out[-2000:]
         m = re.search(r"=\s*(\[[^\]]*\]|nil)\s*:\s*list nat", out.replace("\n", " "))
@@ -273,6 +279,11 @@ def run_coq_shards(name, header, items, checker, item_type=None, shard=300, jobs
             return k, None, out[-2000:]
         body = m.group(1)
         idx = [int(x) for x in re.findall(r"\d+", body)] if body != "nil" else []
+        if not idx:
+            try:
+                os.unlink(fn)          # a shard on which everything agrees is not needed for a replay
+            except OSError:
+                pass
         return k, idx, ""
 
     with ThreadPoolExecutor(max_workers=jobs) as ex:
@@ -293,7 +304,7 @@ def coq_eval_strings(name, header, exprs, timeout=300):
     for i, e in enumerate(exprs):
         body += f"Eval vm_compute in ({e}).\n"
     open(fn, "w").write(body)
-    rc, out = sh(f"ulimit -s unlimited; timeout {timeout} coqc -R {COQ} AV {fn}", timeout=timeout + 20)
+    rc, out = sh(f"ulimit -s unlimited; timeout {timeout} coqc -noglob -R {COQ} AV {fn}", timeout=timeout + 20)
     if rc != 0:
         return [f"<coq error: {out[-500:]}>"] * len(exprs)
     parts = re.split(r"^\s*=\s", out, flags=re.M)[1:]
